@@ -253,6 +253,19 @@ func applyAlias(node *CandidateNode, alias *CandidateNode, aliasIndex int, newCo
 		keyNode := alias.Content[index]
 		log.Debugf("applying alias key %v", keyNode.Value)
 		valueNode := alias.Content[index+1]
+		if keyNode.Value == "<<" {
+			// the map being merged in merges other maps itself (and has not been exploded yet)
+			if valueNode.Kind == SequenceNode {
+				for nestedIndex := len(valueNode.Content) - 1; nestedIndex >= 0; nestedIndex = nestedIndex - 1 {
+					if err := applyAlias(node, valueNode.Content[nestedIndex].Alias, aliasIndex, newContent); err != nil {
+						return err
+					}
+				}
+			} else if err := applyAlias(node, valueNode.Alias, aliasIndex, newContent); err != nil {
+				return err
+			}
+			continue
+		}
 		err := overrideEntry(node, keyNode, valueNode, aliasIndex, newContent)
 		if err != nil {
 			return err
